@@ -265,6 +265,7 @@ def gen_ops(case, rng, quick):
             splits = rng.sample(splits, min(len(splits), 8))
         elif len(splits) > 30:
             splits = rng.sample(splits, 30)
+        splits = splits + [(0, rng.randrange(0, n + 1)), (rng.randrange(0, n + 1), n)]     # one-sided protocols
         for a, b in splits:
             k = rng.random()
             if k < 0.4:
